@@ -28,6 +28,7 @@ import (
 	"verif/sim/kafsim"
 	"verif/sim/kbatch"
 	"verif/sim/kclient"
+	"verif/sim/simetcd"
 	"verif/sim/simrt"
 	"verif/sim/sims3"
 )
@@ -62,6 +63,8 @@ type produceRec struct {
 	inc         string
 	durable     bool // was found in S3 when acknowledged
 	task        string // broker-side request task (write attribution)
+	appendSeen, heldAtAppend bool // C19: lease state at the step AppendBatch ran
+	leaseNote   string
 }
 
 type fetchRec struct {
@@ -88,6 +91,7 @@ type bnode struct {
 	cancel context.CancelFunc
 	ctx    context.Context
 	reqSeq int
+	etcdStore *metadata.EtcdStore
 	pub    int64 // address used for the start -> request happens-before edge (race mode)
 }
 
@@ -118,6 +122,7 @@ type w1 struct {
 	replSeq  int
 	accepted map[string]bool
 	refACL   *refACL
+	etcd     *simetcd.Server
 }
 
 func discardLogger() *slog.Logger { return slog.New(slog.NewTextHandler(io.Discard, nil)) }
@@ -139,7 +144,22 @@ func (n *bnode) start() {
 	if w.s3r != nil {
 		s3c = &checkedS3{S3Client: newDualS3Client(kafsim.S3{St: w.s3}, kafsim.S3{St: w.s3r}), w: w}
 	}
-	h := newHandler(w.store, s3c, info, discardLogger())
+	var store metadata.Store = w.store
+	if w.etcdMode() {
+		es := w.etcdStoreFor(n)
+		if es == nil {
+			return
+		}
+		n.etcdStore = es
+		store = es
+	}
+	h := newHandler(store, s3c, info, discardLogger())
+	if w.etcdMode() {
+		ttl := int(w.cfg("lease_ttl_s", 10))
+		idStr := fmt.Sprintf("%d", n.id)
+		h.leaseManager = metadata.NewPartitionLeaseManager(n.etcdStore.EtcdClient(), metadata.PartitionLeaseConfig{BrokerID: idStr, LeaseTTLSeconds: ttl, Logger: discardLogger()})
+		h.groupLeaseManager = metadata.NewGroupLeaseManager(n.etcdStore.EtcdClient(), metadata.GroupLeaseConfig{BrokerID: idStr, LeaseTTLSeconds: ttl, Logger: discardLogger()})
+	}
 	h.logConfig.Buffer = storage.WriteBufferConfig{
 		MaxBytes:      int(w.cfg("buf_max_bytes", 4<<20)),
 		MaxMessages:   int(w.cfg("buf_max_msgs", 0)),
@@ -183,6 +203,9 @@ func (n *bnode) start() {
 func (n *bnode) stop() {
 	if n.h != nil {
 		n.h.coordinator.Stop()
+	}
+	if n.etcdStore != nil {
+		_ = n.etcdStore.Close()
 	}
 	if n.cancel != nil {
 		n.cancel()
@@ -354,6 +377,7 @@ func w1Run(t *testing.T, c *simrt.Case, prop string, keepTrace bool) simrt.Resul
 	}, func(s *simrt.Sim) {
 		w.finish()
 	})
+	simetcd.Install(nil)
 	if res.Violation != nil && res.Violation.Property != prop {
 		// one clause, one property: a check reports only its own clauses
 		res.Stats.Probes["foreign:"+res.Violation.Property+"/"+res.Violation.Clause]++
@@ -397,6 +421,9 @@ func (w *w1) setup() {
 	w.inner = metadata.NewInMemoryStore(meta)
 	w.store = kafsim.NewStore(w.inner, w.cfg("store_lat_us", 500))
 	w.authz = w1Authorizer(w)
+	if w.etcdMode() {
+		w.setupEtcd()
+	}
 	nb := int(w.cfg("brokers", 1))
 	for i := 0; i < nb; i++ {
 		n := &bnode{w: w, name: fmt.Sprintf("b%d", i), id: int32(i)}
@@ -504,6 +531,8 @@ func (w *w1) clientOp(client, seq int, op simrt.Op) {
 		w.opACL(client, op)
 	case "version-sweep":
 		w.opVersionSweep(client, op)
+	case "expire-lease":
+		w.opExpireLease(op)
 	default:
 		w1ExtraOp(w, client, seq, op)
 	}
@@ -528,6 +557,9 @@ func (w *w1) opProduce(client, seq int, op simrt.Op) {
 		rec.how = op.S
 	}
 	n := w.node(int64(client))
+	if w.etcdMode() {
+		n = w.node(int64(client + seq)) // any broker, owner or not
+	}
 	rec.invoke = w.sim.Step()
 	rec.inc = n.inc
 	w.ledger = append(w.ledger, rec)
